@@ -328,6 +328,12 @@ func (p c04) Run(c *core.Ctx) {
 			break
 		}
 	}
+	// the host kept every element it was given (a transcript): none of them changed while later ones were rendered
+	if d := pair.R.Recheck(); d != "" {
+		c.Violate("a line or option group returned earlier changed while the dialogue went on: "+d, map[string]any{"readers": scripts, "choices": choices})
+		return
+	}
+	c.FeatureN("returned-elements-rechecked-at-the-end", pair.R.KeptCount())
 	if c.WantSample() {
 		c.Sample(map[string]any{"script": scripts[0], "choices": choices, "trace": pair.Trace[:min(len(pair.Trace), 8)]})
 	}
